@@ -377,6 +377,14 @@ let dispatch (fn : string) (args : sx list) : sx =
         SNode (k, to_str nm, to_bool hid, to_opt to_nat doc, to_list to_node ch)
       | _ -> raise (Bad "snode") in
     of_list (fun (k, v) -> L [of_str k; of_opt of_nat v]) (dyn_module (to_opt to_nat moddoc) (to_list to_node body))
+  | "find_docstr_start", [endpos; nlines; e1; e2; s1; s2] ->
+    let ends = (function T_single3 -> to_bool e1 | T_double3 -> to_bool e2) in
+    let starts = (fun _ t -> match t with T_single3 -> to_bool s1 | T_double3 -> to_bool s2) in
+    of_z (find_docstr_start (to_nat endpos) (to_nat nlines) ends starts)
+  | "google_group_offsets", [ids] -> of_list (of_pair of_nat of_nat) (google_group_offsets (to_list to_nat ids))
+  | "freeform_example_lineno", [dl; items] ->
+    let to_fi = function L [A "text"; n; sk] -> FText (to_nat n, to_bool sk) | L [A "part"; n] -> FPart (to_nat n) | _ -> raise (Bad "fitem") in
+    of_opt of_nat (freeform_example_lineno (to_nat dl) (to_list to_fi items))
   | "package_modpaths", [d; tree] ->
     let rec to_tree = function
       | L [A "file"; n] -> DFile (to_str n)
